@@ -33,11 +33,21 @@ def encode_as_wav(base, code, bk_filename, turbo=False):
             + env.PAUSE
             + encode_data_bits(code, env)
             + (env.PAUSE if turbo else b"")
-            + encode_data_bits(struct.pack("<H", sum(code) % (2 ** 16 - 1)), env)
+            + encode_data_bits(struct.pack("<H", bk_checksum(code)), env)
             + env.EOF
         ),
         env.sample_rate
     )
+
+
+def bk_checksum(data):
+    # 16-bit sum with end-around carry, as the BK-0010 monitor computes it (ADD, then ADC)
+    checksum = 0
+    for byte in data:
+        checksum += byte
+        if checksum > 0xffff:
+            checksum -= 0xffff
+    return checksum
 
 
 def encode_data_bits(data, env):
